@@ -61,8 +61,13 @@ def split_form(rng, text):
     return "\n".join(lines)
 
 
-def join_tokens_safe(text):
-    return text
+def split_inside(rng, text):
+    """like split_form, but never ends the text with a line-end comment (another form follows on the same line)"""
+    t = split_form(rng, text)
+    last = t.rsplit("\n", 1)[-1]
+    if ";" in last and not ('"' in last or "|" in last or "#\\" in last):
+        t = t[: len(t) - len(last)] + last.split(";")[0].rstrip()
+    return t
 
 
 def gen_session(rng):
@@ -84,6 +89,25 @@ def gen_session(rng):
     for e in extra:
         forms.insert(rng.randrange(len(forms) + 1), e)
     return forms
+
+
+MALFORMED = ["(if)", "#z", "(lambda)", "(1 . 2 3)", "(let ((a)) a)", "(undefined-at-the-end)", "(car '())"]
+
+
+def group_submissions(rng, forms, reference_ok):
+    """[[form, ...], ...]: some consecutive forms share one submission (one input line). Only the last form of a shared submission may
+    fail, so that 'evaluating the forms one after another' is well defined (evaluation of a submission stops at its first failing form)."""
+    subs, i = [], 0
+    while i < len(forms):
+        k = rng.choice([1, 1, 1, 2, 3])
+        grp = [forms[i]]
+        j = i + 1
+        while len(grp) < k and j < len(forms) and reference_ok(grp[-1]):
+            grp.append(forms[j]); j += 1
+        if len(grp) > 1 and reference_ok(grp[-1]) and rng.random() < 0.4:
+            grp.append(rng.choice(MALFORMED))
+        subs.append(grp); i = j
+    return subs
 
 
 def run_repl(cli, text):
@@ -123,14 +147,28 @@ def run(tier, seed):
     ctx.legs.append("completeness-exhaustive")
     # ---------------- (ii)
     cli = core.build_cli()
-    sessions = [gen_session(rng) for _ in range(nsess)]
+    raw = [gen_session(rng) for _ in range(nsess)]
+    # a first pass through the library interface tells which forms succeed (only such forms may be followed by others in one submission)
+    pre = core.run_jobs([{"id": "p%d" % i, "interps": [{"stdlib": True}], "steps": [{"src": f} for f in forms], "fuel": 200000} for i, forms in enumerate(raw)], "dev",
+                        timeout=900 if tier == "quick" else 3000, tag="c18p")
+    sessions, subs_of = [], []
+    for forms, rec in zip(raw, pre):
+        good = set()
+        if rec and "steps" in rec:
+            good = {f for f, st in zip(forms, rec["steps"]) if "ok" in st and not st.get("fuel_exhausted")}
+        subs = group_submissions(rng, forms, lambda f: f in good)
+        subs_of.append(subs)
+        sessions.append([f for grp in subs for f in grp])
+    # the reference: every form evaluated by its own Interpreter::eval call, one after another on one interpreter
     jobs = [{"id": "s%d" % i, "interps": [{"stdlib": True}], "steps": [{"src": f, "disp": True} for f in forms], "fuel": 200000} for i, forms in enumerate(sessions)]
     drecs = core.run_jobs(jobs, "dev", timeout=900 if tier == "quick" else 3000, tag="c18d")
     inputs = []
-    for forms in sessions:
-        variants = ["\n".join(forms) + "\n"]
+    for subs in subs_of:
+        variants = ["\n".join(" ".join(grp) for grp in subs) + "\n"]
         for _ in range(nsplit - 1):
-            variants.append("\n".join(split_form(rng, f) for f in forms) + "\n")
+            # forms are broken into lines only inside a form; the forms of one submission stay joined on a line, otherwise the REPL (rightly)
+            # submits the first as soon as it is closed
+            variants.append("\n".join(" ".join(split_inside(rng, f) for f in grp) for grp in subs) + "\n")
         inputs.append(variants)
     flat = [(i, k, v) for i, vs in enumerate(inputs) for k, v in enumerate(vs)]
     with ThreadPoolExecutor(max_workers=core.NCPU) as ex:
@@ -147,16 +185,23 @@ def run(tier, seed):
             ctx.inconclusive_cases += 1; continue
         exp_out, exp_err = "", ""
         bad_ref = False
-        for s in rec["steps"]:
-            exp_out += s.get("out", "")
-            if "ok" in s:
-                v = s["ok"]
-                if not v.get("none") and not v.get("void"):
-                    exp_out += v.get("disp", "?") + "\n"
-            elif "err" in s:
-                exp_err += s["err"]["msg"] + "\n"
-            else:
-                bad_ref = True
+        pos = 0
+        for grp in subs_of[i]:
+            steps_g = rec["steps"][pos:pos + len(grp)]; pos += len(grp)
+            for gi, s in enumerate(steps_g):
+                last = gi == len(grp) - 1
+                exp_out += s.get("out", "")
+                if "ok" in s:
+                    v = s["ok"]
+                    # a submission prints the value of its last form only
+                    if last and not v.get("none") and not v.get("void"):
+                        exp_out += v.get("disp", "?") + "\n"
+                elif "err" in s:
+                    exp_err += s["err"]["msg"] + "\n"
+                    if not last:
+                        bad_ref = True      # cannot happen by construction: only the last form of a submission may fail
+                else:
+                    bad_ref = True
         if bad_ref:
             ctx.count("reference_panicked_(C07_matter)"); ctx.inconclusive_cases += 1; continue
         ok = True
@@ -184,7 +229,7 @@ def run(tier, seed):
                                "dedupe": "diff|%s" % ("stdout" if body != exp_out else "stderr")}, {"input": v, "forms": forms})
                 break
         if ok:
-            ctx.count("sessions_agree"); ctx.count("submissions", len(forms))
+            ctx.count("sessions_agree"); ctx.count("submissions", len(subs_of[i])); ctx.count("multi_form_submissions", sum(1 for g in subs_of[i] if len(g) > 1))
             ctx.nontriv("S|" + "|".join(forms)[:300])
     ctx.legs.append("transcripts")
     ctx.sample({"session_input": inputs[0][1][:600]})
